@@ -111,6 +111,43 @@ def run(tier, seed):
                                                    "actual": None if r.get("status") != "done" else [s["stdout"] for s in r["steps"]],
                                                    "files": {m: module_text(c["cfg"], m, "file" if c["cfg"]["where"][m] != "dir" else "dir") for m in "abc"},
                                                    "host1": job["ops"][0]["src"], "host2": job["ops"][1]["src"]})
+    # (a2) clearing the module cache: the next import loads and runs the module as it is on disk now, whatever an earlier
+    # version did -- a version that fails is reported every time it is imported, never replaced by the exports of a version that is gone
+    V1 = "print 'm v1 runs'\nexport value = 1\n"
+    V2 = "print 'm v2 runs'\nthrow 'm v2 is broken'\n"
+    V3 = "print 'm v3 runs'\nexport value = 3\n"
+    HOST = "import m\nprint 'host sees {m.value}'\n"
+    scen = [("reimport_failing", [V1, "run", "clear", V2, "run", "run", "clear", V3, "run"],
+             [["m v1 runs", "host sees 1"], ["m v2 runs"], ["m v2 runs"], ["m v3 runs", "host sees 3"]], ["ok", "err", "err", "ok"]),
+            ("reimport_no_clear", [V1, "run", V2, "run", "clear", "run", "run"],
+             [["m v1 runs", "host sees 1"], ["host sees 1"], ["m v2 runs"], ["m v2 runs"]], ["ok", "ok", "err", "err"])]
+    sjobs = []
+    for nm, steps, _, _ in scen:
+        base = os.path.join(root, "scen_" + nm)
+        os.makedirs(base, exist_ok=True)
+        with open(os.path.join(base, "host.koto"), "w") as f:
+            f.write(HOST)
+        ops = []
+        for st0 in steps:
+            if st0 == "run":
+                ops.append({"op": "run", "src": HOST, "path": os.path.join(base, "host.koto")})
+            elif st0 == "clear":
+                ops.append({"op": "clear_cache"})
+            else:
+                ops.append({"op": "write_file", "path": os.path.join(base, "m.koto"), "src": st0})
+        sjobs.append({"id": "scen_" + nm, "ops": ops})
+    for (nm, steps, want_out, want_st), job, r in zip(scen, sjobs, common.kv("session", sjobs)):
+        why = None
+        if r.get("status") != "done":
+            why = "implementation %s (%s)" % (r.get("status"), (r.get("err_msg") or "")[:200])
+        else:
+            runs = [stp for op, stp in zip(job["ops"], r["steps"]) if op["op"] == "run"]
+            got_out = [[l for l in stp["stdout"].split("\n") if l] for stp in runs]
+            got_st = [stp["status"] for stp in runs]
+            if got_out != want_out or got_st != want_st:
+                why = "module cache scenario %s: expected %s %s, got %s %s" % (nm, want_st, want_out, got_st, got_out)
+        if why:
+            rep.violation("scen_" + nm, {"property": PROP, "why": why, "scenario": nm, "steps": steps})
     shutil.rmtree(root, ignore_errors=True)
     # (b) export_top_level_ids: every top-level assignment ends up in the exports map with its final value
     g = gen_core.Gen(rng, tracer=False)
